@@ -593,6 +593,13 @@ func TestCheck(t *testing.T) {
 		}
 	}
 	// (3) mutated encodings <= 512 bytes
+	if r.Shard == 0 { // lists of equal length and equal checksum, one after the other
+		for _, pr := range reflabel.Colliding() {
+			judgeBytes(r, "name-collision", pr.A)
+			judgeBytes(r, "name-collision", pr.B)
+			judgeBytes(r, "name-collision", pr.A)
+		}
+	}
 	m := r.Pick(80000, 10000000)
 	for i := 0; i < m; i++ {
 		if !r.Mine(i) {
